@@ -193,8 +193,10 @@ for n, lens in ((2, (3, 4, 5)), (3, (4, 5))):
                        "fuzzy_match_optimal: score-only and indices variants agree (second call on the same matcher)", unwind=max(h + 3, 7), bound=bound, cost=8, timeout=1500)
                     UC("c04-opt-prefix-" + tag, "optimal", "opt_prefer_prefix::<%s>()" % shape, {"C04": tier}, "bounded", OPT_FNS,
                        "fuzzy_match_optimal: prefer_prefix raises the score by 0..=8", unwind=max(h + 3, 7), bound=bound, cost=8, timeout=1500)
-                    UC("c10-opt-history-" + tag, "optimal", "opt_history_independent::<%s>()" % shape, {"C10": tier}, "bounded", OPT_FNS,
-                       "fuzzy_match_optimal: same score and indices from a fresh matcher and from one whose scratch memory holds arbitrary bytes", unwind=max(h + 3, 7), bound=bound, cost=8, timeout=1500)
+                    win = h - st
+                    need = ((2 * win + 2 * n + 7) // 8) * 8 + 8 * (win + 1 - n) + (win + 1 - n) * n
+                    UC("c10-opt-history-" + tag, "optimal", "opt_history_independent::<%s,%d>()" % (shape, ((need + 7) // 8) * 8), {"C10": tier}, "bounded", OPT_FNS,
+                       "fuzzy_match_optimal: same score and indices from a fresh matcher and from one whose scratch memory holds arbitrary bytes", unwind=max(h + 3, 7), bound=bound, cost=8, timeout=1500, core=(tag == "h3-n2-s0-k0"))
 UC("c04-opt-canary", "optimal", "opt_canary()", {"C04": "quick", "C01": "quick", "C10": "quick"}, "bounded", [], "canary", unwind=8, expect="fail", no_cover=True)
 
 EXACT_FNS = ["Matcher::substring_match_1_ascii", "Matcher::substring_match_ascii", "Matcher::substring_match_ascii_with_prefilter", "Matcher::calculate_score"]
